@@ -54,7 +54,7 @@ func kinds() []blk.Kind {
 }
 
 func points(k blk.Kind) []string {
-	p := []string{"before-arrival", "after-failed-attempt-1", "after-failed-attempt-2", "asleep", "loser-retry", "inner-released-then-pause"}
+	p := []string{"before-arrival", "after-failed-attempt-1", "after-failed-attempt-2", "asleep", "loser-retry", "inner-released-then-pause", "parallel-releases"}
 	if k.Family == "queue" {
 		p = append(p, "queue.before_push", "queue.after_push")
 		if k.Evict {
@@ -72,7 +72,7 @@ func grid() []scenario {
 		for _, p := range points(k) {
 			for cap := 1; cap <= 2; cap++ {
 				for nw := 1; nw <= 3; nw++ {
-					if (p == "loser-retry" && (cap < 2 || nw < 2)) || ((strings.HasPrefix(p, "handoff") || strings.HasPrefix(p, "next-in-line")) && nw < 2) {
+					if ((p == "loser-retry" || p == "parallel-releases") && (cap < 2 || nw < 2)) || ((strings.HasPrefix(p, "handoff") || strings.HasPrefix(p, "next-in-line")) && nw < 2) {
 						continue
 					}
 					for _, o := range outcomes {
@@ -87,6 +87,7 @@ func grid() []scenario {
 
 type outcomeT struct {
 	snaps   []blk.Snapshot
+	holders []int // per snapshot: tokens the harness knows to be held (not yet completed holders + granted, uncompleted waiters)
 	final   blk.Final
 	reached bool
 	trace   []string
@@ -135,6 +136,12 @@ func run(t *testing.T, sc scenario, r *rand.Rand) outcomeT {
 				// an attempt on behalf of a waiter made by another goroutine = hand-off attempt of unblock
 				if e.OK && e.Caller >= 0 && e.Caller < 900 {
 					handoffTarget.Store(int64(e.Caller))
+				}
+				if sc.Point == "parallel-releases" && armed.Load() {
+					// a slow delegate: the hand-off attempts of holders completing at the same moment overlap if the limiter lets them
+					for i := 0; i < sc.Yields/4; i++ {
+						runtime.Gosched()
+					}
 				}
 				return
 			}
@@ -198,6 +205,15 @@ func run(t *testing.T, sc scenario, r *rand.Rand) outcomeT {
 		snap := func(tag string) {
 			w.Quiesce()
 			out.snaps = append(out.snaps, w.Snap(tag))
+			mu.Lock()
+			h := len(held)
+			mu.Unlock()
+			for _, wt := range w.Waiters {
+				if wt.Done() && wt.OK && wt.L != nil && !wt.Completed {
+					h++
+				}
+			}
+			out.holders = append(out.holders, h)
 		}
 		if sc.Point == "before-arrival" {
 			releaseNext()
@@ -205,7 +221,7 @@ func run(t *testing.T, sc scenario, r *rand.Rand) outcomeT {
 		}
 		for i := 0; i < sc.Waiters; i++ {
 			w.Spawn()
-			if sc.Point == "asleep" || sc.Point == "loser-retry" || strings.HasPrefix(sc.Point, "handoff") || strings.HasPrefix(sc.Point, "next-in-line") {
+			if sc.Point == "asleep" || sc.Point == "loser-retry" || sc.Point == "parallel-releases" || strings.HasPrefix(sc.Point, "handoff") || strings.HasPrefix(sc.Point, "next-in-line") {
 				w.Quiesce() // arrival order is a fact
 				if sc.Point == "handoff-vs-timeout" {
 					time.Sleep(time.Millisecond)
@@ -222,6 +238,15 @@ func run(t *testing.T, sc scenario, r *rand.Rand) outcomeT {
 			armed.Store(true)
 			releaseNext()
 			snap("after-release-with-loser-retry")
+		case "parallel-releases":
+			// every holder completes at the same moment, each from its own goroutine
+			armed.Store(true)
+			reached.Store(true)
+			for i := 0; i < sc.Cap; i++ {
+				go releaseNext()
+			}
+			snap("after-all-holders-completed-in-parallel")
+			armed.Store(false)
 		case "handoff-vs-cancel":
 			releaseNext()
 			snap("after-release-with-handoff-to-cancelled-waiter")
@@ -276,9 +301,14 @@ func judge(idx int64, sc scenario, o outcomeT) {
 		rt.Count("scenarios_reaching_their_schedule_point", 1)
 		rt.Count("reached/"+sc.Point, 1)
 	}
-	for _, s := range o.snaps {
+	for i, s := range o.snaps {
 		if len(s.Blocked) > 0 {
 			rt.Count("snapshots_with_blocked_callers", 1)
+		}
+		if i < len(o.holders) && s.Busy > o.holders[i] && len(s.Blocked) > 0 {
+			rt.Violation(fmt.Sprintf("C10/%s/release@%s/completed-token-neither-freed-nor-handed-over", sc.Kind, sc.Point), idx, rt.J{"scenario": sc, "snapshot": s, "tokens_held_by_anyone": o.holders[i],
+				"meaning": "a holder completed, yet at quiescence the slot is still counted busy, nobody holds it and callers are still blocked", "trace": o.trace})
+			return
 		}
 		if s.Free > 0 && len(s.Blocked) > 0 {
 			tr := o.trace
@@ -299,6 +329,12 @@ func judge(idx int64, sc scenario, o outcomeT) {
 	}
 	if o.reached && granted > 0 {
 		rt.Distinct(fmt.Sprintf("%+v", sc))
+	}
+	if os.Getenv("VERIF_DEBUG_POINT") == sc.Point {
+		fmt.Fprintf(os.Stderr, "DEBUG %+v\n", sc)
+		for _, l := range o.trace {
+			fmt.Fprintln(os.Stderr, "   ", l)
+		}
 	}
 	rt.DistinctIn("interleavings_observed(kind,point,event trace)", fmt.Sprintf("%v|%s|%d|%d|%v", sc.Kind, sc.Point, sc.Cap, sc.Waiters, o.trace))
 	if rt.WantSample() && idx%57 == 5 {
